@@ -310,6 +310,20 @@ pub fn run(args: &[String]) -> Result<(), String> {
         w.flush().map_err(|e| e.to_string())?;
         Ok(end["hang"].as_bool().unwrap_or(false))
     };
+    if let Some(path) = arg_val(args, "--measure") {
+        // how many times each call takes the RNG lock when it runs alone (one thread, nothing forced)
+        let mut m = serde_json::Map::new();
+        for call in ["encaps", "decaps", "decaps_empty", "encrypt", "encrypt_big", "header_md", "header", "keygen", "refresh", "rekey"] {
+            let (events, end) = execute(&b, &[vec![call.to_string()]], vec![], false);
+            if end["hang"].as_bool().unwrap_or(false) {
+                return Err(format!("measure: call {call} did not return when run alone"));
+            }
+            let n = events.iter().filter(|e| e["ev"] == "acq").count();
+            m.insert(call.to_string(), json!(n));
+        }
+        std::fs::write(&path, Value::Object(m).to_string()).map_err(|e| e.to_string())?;
+        return Ok(());
+    }
     if let Some(path) = arg_val(args, "--schedules") {
         let text = std::fs::read_to_string(&path).map_err(|e| e.to_string())?;
         for (i, line) in text.lines().enumerate().skip(from) {
